@@ -75,7 +75,8 @@ func Spec_decomposeWeights(params *model.DecisionMakingParams) *model.Weights {
 	for _, c := range params.Criteria {
 		weights[c.Id] = 0
 	}
-	for _, a := range params.ConsideredAlternatives {
+	// C04: summed in the order of the alternatives' ids, not in the order they are listed in
+	for _, a := range *model.Spec_SortAlternativesByName(&params.ConsideredAlternatives) {
 		sortedCriteria := Spec_prepareCriteriaInAscendingOrder(&a)
 		_, w := Spec_computeTotalWeight(sortedCriteria, &combinedWeights)
 		for _, criteriaValues := range w {
